@@ -7,6 +7,9 @@
 //   blk_i, fin, order exactly as in props/C16/harness_test.go (the root is the genesis block,
 //   number 0): blk_i := <parent>.<number>.<kind>.<arrival>, fin := f<i> (after all additions
 //   SetFinalisedHash(hash_i, 1, 0) and ask again; f0: no finalisation), order := o<i1>.<i2>...
+//   An order may contain one `z`: SetFinalisedHash(hash_fin, 1, 0) happens at that position,
+//   between the additions, and not again at the end (a refused request, e.g. for a block that is
+//   not added yet, changes nothing); the last two observed fields are then `-`.
 // observed (same shape as the lib/blocktree harness, so that one driver checks both):
 //   H:<hash_0>,...,<hash_nblk> then one token per order:
 //   B:<number of AddBlockWithArrivalTime errors>;<BlockState.BestBlockHash, three calls>;
@@ -148,7 +151,13 @@ func c16sRun(in string) string {
 			return s
 		}
 		errs := 0
+		inter := false
 		for _, s := range strings.Split(o[1:], ".") {
+			if s == "z" {
+				inter = true
+				_ = bs.SetFinalisedHash(blks[fin].header.Hash(), 1, 0)
+				continue
+			}
 			i := int(vu.UnX(s))
 			blk := &types.Block{Header: *blks[i].header, Body: types.Body{}}
 			if err := bs.AddBlockWithArrivalTime(blk, time.Unix(0, blks[i].arrival)); err != nil {
@@ -157,7 +166,9 @@ func c16sRun(in string) string {
 		}
 		b3 := []string{best(), best(), best()}
 		tok := fmt.Sprintf("B:%s;%s;%s", vu.X(uint64(errs)), strings.Join(b3, "/"), c16sIds(ids, bs.Leaves()))
-		if fin > 0 {
+		if inter {
+			tok += ";-;-"
+		} else if fin > 0 {
 			if err := bs.SetFinalisedHash(blks[fin].header.Hash(), 1, 0); err != nil {
 				tok += ";err;-"
 			} else {
@@ -302,6 +313,33 @@ func c16sRandom(r *vu.RNG, emit func(string)) {
 			toks = append(toks, t)
 		}
 	}
+	if fin > 0 {
+		// the finalisation in between: mostly after the finalised block has been added
+		for k := 0; k < 3; k++ {
+			o := c16sRandomOrder(r, par)
+			pos := 0
+			for j, v := range o {
+				if v == fin {
+					pos = j + 1
+				}
+			}
+			at := pos + r.Intn(len(o)-pos+1)
+			if r.Chance(1, 8) {
+				at = r.Intn(len(o) + 1)
+			}
+			parts := make([]string, 0, len(o)+1)
+			for j, v := range o {
+				if j == at {
+					parts = append(parts, "z")
+				}
+				parts = append(parts, vu.X(uint64(v)))
+			}
+			if at == len(o) {
+				parts = append(parts, "z")
+			}
+			toks = append(toks, "o"+strings.Join(parts, "."))
+		}
+	}
 	emit(strings.Join(toks, " "))
 }
 
@@ -311,6 +349,9 @@ func c16sGen(r *vu.RNG, n int, emit func(string)) {
 	emit("bs 2 0.1.0.0 0.1.0.0 f0 o1.2 o2.1")
 	emit("bs 4 0.1.0.5 0.1.0.3 0.1.1.0 3.2.2.0 f0 o1.2.3.4 o3.4.2.1 o3.1.4.2")
 	emit("bs 3 0.1.0.0 0.1.1.5 2.2.0.9 f0 o1.2.3 o2.3.1 o2.1.3")
+	// SetFinalisedHash(block 1) in between: before its children 3, 4 are added / after / last;
+	// block 2 is abandoned, or refused when it comes after the finalisation
+	emit("bs 4 0.1.0.5 0.1.0.3 1.2.1.0 1.2.0.9 f1 o1.2.3.4 o1.2.z.3.4 o2.1.4.z.3 o2.1.4.3.z o1.z.2.3.4 o1.3.z.4.2 oz.1.2.3.4")
 	max := 3
 	if vu.Thorough() {
 		max = 4
